@@ -105,6 +105,20 @@ CHECKS = {
             "TLA+ clauses (spec/PyBind.tla) on (native, Python) result pairs; file comparison for the generated enums"),
 }
 
+DESIGN_LEVEL = {'C01': (' Design level: TLC model-checks spec/MC_SasLexer.tla (operational model with lazily chosen input) for NoFault, NoInternalError, CkptDiscipline and the action property Progress in regimes R2 (configuration-exhaustive under a view) and R1 (all inputs up to N fragments).', ' + TLC model checking of the operational model (MC_SasLexer: NoFault, Progress, CkptDiscipline), bound to the code by trace conformance'),
+ 'C02': (' Design level: TokensOrdered and DoneShape model-checked on spec/MC_SasLexer.tla (R2 and R1).', ' + TLC model checking of the operational model (TokensOrdered, DoneShape)'),
+ 'C03': (' The operational model is bound to the byte cursor by conformance (TraceConf ByteDiffs).', ' + byte-offset conformance of the operational model'),
+ 'C04': (' Design level: LinesMatch model-checked on spec/MC_SasLexer.tla (R2 and R1).', ' + TLC model checking of the operational model (LinesMatch)'),
+ 'C05': (' Design level: spec/Buffer.tla transcribes the accessor and bulk-view formulas of buffer.rs; TLC (spec/MC_Views.tla) enumerates every buffer satisfying the buffer invariant over small texts and checks ViewsAgree and ViewsMatchText.', ' + exhaustive small-scope TLC model check of the buffer views (MC_Views)'),
+ 'C07': (' Design level: the operational model carries payload kinds, payload ranges and the literal-buffer length (conformance per step); LitPartition is model-checked on spec/MC_SasLexer.tla (R2 and R1).', ' + TLC model checking of the literal-buffer partition (LitPartition) and payload conformance'),
+ 'C09': (' Design level: DoneErrPairs model-checked on spec/MC_SasLexer.tla for all inputs up to N fragments (R1) and in R2.', ' + TLC model checking of the operational model (DoneErrPairs)'),
+ 'C10': (' Design level: DoneShape and DoneBalanced model-checked on spec/MC_SasLexer.tla (R2 and R1).', ' + TLC model checking of the operational model (DoneShape, DoneBalanced)'),
+ 'C11': (' Design level: TLC checks OpenCodeEq (operational model = reference lexer, tokens and errors) on every macro-free input of up to 4 open-code fragments.', ' + TLC model checking of model = reference lexer (OpenCodeEq)'),
+ 'C15': (' Design level: spec/MC_Compose.tla spawns a fresh lexer at every closed boundary and runs both in lockstep on lazily chosen text (invariant Compose).', ' + TLC model checking of the lockstep product MC_Compose'),
+ 'C16': (' Design level: spec/MC_Twin.tla runs the model on a text and on its upper-cased twin in lockstep (invariant TwinSame).', ' + TLC model checking of the lockstep product MC_Twin (case)'),
+ 'C17': (' Design level: spec/MC_Twin.tla runs the model on a text and on its BOM-prefixed twin in lockstep (invariant TwinSame).', ' + TLC model checking of the lockstep product MC_Twin (bom)'),
+ 'C18': (' Design level: spec/MC_SepPair.tla runs the model with and without the feature in lockstep (SameConfiguration, SepErase, SepPlacement, SepPlacementStrict).', ' + TLC model checking of the lockstep product MC_SepPair')}
+
 NOT_BUILT = {}
 
 
@@ -137,6 +151,11 @@ def main():
              "serves_properties": sorted(table),
              "kind_free_text": "TLA+ property predicates (spec/Props.tla and friends) evaluated by TLC on traces "
                                "recorded from the real lexer by the cfg(sas_lexer_verif) hooks"},
+            {"name": "tlc-design-mc", "path": "spec/MC_SasLexer.tla",
+             "serves_properties": sorted(DESIGN_LEVEL),
+             "kind_free_text": "TLC model checking of the operational model spec/SasLexer.tla with lazily chosen input "
+                               "(MC_SasLexer; products MC_Twin, MC_SepPair, MC_Compose; MC_Views for the buffer), run inside "
+                               "the same ./check commands; the model is bound to the code by ./check CONF (spec/TraceConf.tla)"},
         ],
         "checks": [],
         "not_applicable": [],
@@ -147,6 +166,8 @@ def main():
         pid = p["id"]
         if pid in table:
             level, ref, text, tech = table[pid]
+            if pid in DESIGN_LEVEL:
+                text, tech = text + DESIGN_LEVEL[pid][0], tech + DESIGN_LEVEL[pid][1]
             m["checks"].append({
                 "property_id": pid,
                 "quick_cmd": "./check %s --tier quick" % pid,
